@@ -39,7 +39,7 @@ func xmlCfg() xmodel.GenCfg {
 		Names:  []string{"a", "b", "c", "a-b", "a.b", "a1", "é", "_u", "child", "div"},
 		Values: []string{"1", "2", "abc", "x y", " lead", "trail ", "<&>", "a\"b", "a'b", "é€", "𝄞", "]]>", "&amp;", "\t", "line\nbreak", "10", "жук", "ÿþ", "naïve", "Türkçe", "αβγ", "łódź", "þð",
 			// characters whose ISO-8859-1 / windows-1252 bytes happen to form valid UTF-8 sequences
-			"Ã©", "Â£Ã©", "caf\u00c3\u00a9", "Ã\u00a0"}}
+			"\ufeffx", "x\ufeff", "\u200bz", "Ã©", "Â£Ã©", "caf\u00c3\u00a9", "Ã\u00a0"}}
 }
 
 type xmlSer struct {
